@@ -214,7 +214,7 @@ impl Property for C17 {
         "fault_enumeration"
     }
     fn runs(&self, tier: &str) -> u64 {
-        if tier == "thorough" { 1_500_000 } else { 40_000 }
+        if tier == "thorough" { 2_000_000 } else { 40_000 }
     }
     fn rule(&self) -> String {
         "thorough tier additionally enumerates, for 3200 W2 programs, every single fault (write-call index of the fault-free run x {one-shot ENOSPC, persistent EIO}) up to 48 write calls, and every single corruption of a call name or of a string/list '+' (up to 64 per program); sampled cases: case = (W2 call-tree program, 70%) x (storage corruption of a call name => undefined name | of a string/list '+' => operator type error | of a statement-level space into ',' => syntax error, 25% of these | write error / torn write on fd 1 at a write-call index of the run, 6 errnos, one-shot or persistent, optionally under write chunking and EINTR) | (W1 corpus program, 30%) x (sink kinds, 2>&1, path spelling, hash keys, invisible events); oracle for a fired sink fault with print j in flight (identified from acknowledged bytes), and likewise for a corrupted call/operator at its first evaluation: exit 103; stdout is a prefix of the model output covering prints < j; stderr line 1 = '<argv1>:<L>:<C>:[ in '<f>':] <text>' with f the model's innermost function and (L,C) the print call; Stacktrace has exactly one line per active call with the model's caller names and call positions, ending at <root>; no internal identifier in the text; fault-free W2 run = model stdout, empty stderr, exit 0; W1: transcript equals reference, exit 0 <=> stderr empty, merged stream = stdout ++ stderr; non-trivial = a fault fired or world differs; distinct = distinct (program, world, plan)".to_string()
@@ -283,10 +283,10 @@ impl Property for C17 {
             }
             let mut world = if rng.chance(1, 3) { World::random(rng, &["rand", "spelling", "file_name", "cwd_name", "rel", "stdout", "stderr", "merged", "env_kind", "locale"]) } else { World::reference() };
             // a closed fd swallows writes silently (std treats EBADF on stdio as success): not a sink-fault world
-            if world.stdout == 3 {
+            if world.stdout == 3 || world.stdout == 9 {
                 world.stdout = 5;
             }
-            if world.stderr == 3 {
+            if world.stderr == 3 || world.stderr == 9 {
                 world.stderr = 1;
             }
             world.normalize();
@@ -438,8 +438,8 @@ fn check_w1(ctx: &Ctx, worker: usize, case: &Case) -> Outcome {
         out.probes.push("w1-failing-merged".into());
     }
     let exp_err = oracle::expected_stderr(&reference, &r.argv1, &r.abs_script);
-    let cmp_stdout = case.world.stdout != 3;
-    let cmp_stderr = case.world.stderr != 3 || case.world.merged;
+    let cmp_stdout = case.world.stdout != 3 && case.world.stdout != 9;
+    let cmp_stderr = (case.world.stderr != 3 && case.world.stderr != 9) || case.world.merged;
     let mut bad = vec![];
     if r.events.iter().any(|e| e.kind == 'W' && e.fd == 2 && e.ret < 0 && e.errno != 4) {
         // stderr refused (part of) the diagnostic: what can still be asserted is that the
